@@ -355,8 +355,8 @@ def in_limits(mol):
             return False
         if a._implicit_hydrogens is not None and not (0 <= a._implicit_hydrogens <= 6):
             return False
-        for v in (a.x, a.y):
-            if not math.isfinite(v) or abs(v) >= 65520:
+        for v in (a.x, a.y):   # coordinates outside the half range are documented to be stored as 0: not compared
+            if not math.isfinite(v):
                 return False
     return True
 
@@ -556,7 +556,13 @@ def lattice(n, steps):
     return build(atoms, bonds)
 
 
+def polyene(k):
+    from chython import smiles
+    return smiles('C' + '/C=C' * k + '/C')
+
+
 def gen_big(ctx):
+    yield 'polyene[300]', polyene(300)      # more than 255 cis/trans records (12-bit count field)
     yield 'lattice[4095;1]', lattice(4095, (1,))
     yield 'lattice[4095;1,16,256]', lattice(4095, (1, 16, 256))
     if not ctx.quick:
@@ -649,7 +655,8 @@ def add_mol_cases(batch, name, mol, sample=False):
     rp = real_pack(mol)
     ctx.dist('atoms<=%d' % (10 ** len(str(max(len(mol._atoms), 1)))))
     ctx.dist('bonds%%8=%d' % ((sum(len(x) for x in mol._bonds.values()) // 2) % 8))
-    sus = ({'kind': 'mol', 'name': name, 'mol': mol_to_json(mol)} if not name.startswith('lattice[') else
+    sus = ({'kind': 'smiles', 'smiles': 'C' + '/C=C' * 300 + '/C'} if name.startswith('polyene[') else
+           {'kind': 'mol', 'name': name, 'mol': mol_to_json(mol)} if not name.startswith('lattice[') else
            {'kind': 'lattice', 'atoms': len(mol._atoms), 'steps': [int(v) for v in name.split(';')[1].rstrip(']').split(',')]})
 
     def c_pack(res):
@@ -989,6 +996,120 @@ def corr_refpacks(ctx):
             ctx.fail(sig, what, {'kind': 'refpack', 'index': i})
 
 
+def v0_order_block(codes):
+    """version-0 bond-order block written from the layout comment of the decoder (`0 3 3 1 | 2 3 3`: five 3-bit codes
+    right-aligned in two bytes, the last group zero-filled) — independent of the Lean model"""
+    out = bytearray()
+    codes = list(codes) + [0] * (-len(codes) % 5)
+    for i in range(0, len(codes), 5):
+        c = codes[i:i + 5]
+        v = (c[0] << 12) | (c[1] << 9) | (c[2] << 6) | (c[3] << 3) | c[4]
+        out += bytes([v >> 8, v & 255])
+    return bytes(out)
+
+
+def to_v0(mol, data):
+    """the same molecule as a version-0 pack (only the order block and the version byte differ)"""
+    na = len(mol._atoms)
+    nb = sum(len(x) for x in mol._bonds.values()) // 2
+    o0 = 4 + 9 * na + 3 * nb
+    o1 = o0 + (3 * nb + 7) // 8
+    codes = [int(b) - 1 for *_, b in mol.bonds()]
+    return bytes([0]) + bytes(data[1:o0]) + v0_order_block(codes) + bytes(data[o1:])
+
+
+def v0_differs(m, d0, d2):
+    """real code only: the version-0 pack must decode (extension and public `unpack`/`pack_len`) like the version-2 pack"""
+    from chython import MoleculeContainer
+    r0, r2 = real_decode_raw(list(d0)), real_decode_raw(list(d2))
+    if r0[0] != 'ok' or r2[0] != 'ok' or r0[1]['atoms'] != r2[1]['atoms'] or r0[1]['ct'] != r2[1]['ct']:
+        return 'the version-0 pack of a molecule decodes to a different structure than its version-2 pack'
+    try:
+        u0 = MoleculeContainer.unpack(d0, compressed=False, skip_labels_calculation=True)
+        n0 = MoleculeContainer.pack_len(d0, compressed=False)
+    except Exception as e:
+        return f'public unpack/pack_len of a version-0 pack raised {e!r}'
+    d = diff_mols(m, u0)
+    if d:
+        return f'public unpack of the version-0 pack: {d[1]}'
+    if n0 != len(m._atoms):
+        return f'pack_len of the version-0 pack {n0} != {len(m._atoms)}'
+    return None
+
+
+def corr_synthetic(ctx):
+    """decoder-side streams on byte strings the encoder cannot or does not produce today:
+    version-0 packs, large cis/trans counts, arbitrary atom-record bytes."""
+    from chython import MoleculeContainer
+    from .. import molgen
+    rng = ctx.rng
+    b = Batch(ctx)
+    mols = [m for _, m in gen_limits(ctx)][:400:3] + [m for s in STEREO_SMILES if (m := molgen.parse(s))]
+    mols += [m for _, m in molgen.corpus(rng, 30 if ctx.quick else 300)]
+    for m in mols:
+        rp = real_pack(m)
+        if rp[0] != 'ok':
+            continue
+        d0 = to_v0(m, bytes(rp[1]))
+        rd = real_decode_raw(list(d0))
+        rd2 = real_decode_raw(rp[1])
+        if rd[0] == 'ok' and rd2[0] == 'ok':   # property level: a version-0 pack of the molecule decodes to the same structure
+            ctx.count(('v0-oracle', d0))
+            why = v0_differs(m, d0, bytes(rp[1]))
+            if why:
+                ctx.fail('C10/v0/decodes-differently', why, {'kind': 'mol', 'name': 'v0', 'mol': mol_to_json(m), 'v0': True})
+
+        def c(res, rd=rd, d0=d0):
+            if res[0] != rd[0]:
+                return f'v0 unpack outcome: model {res[0]} {res[1] if res[0] == "err" else ""} real {rd[:2] if rd[0] == "err" else "ok"} [{d0.hex()[:80]}]'
+            if res[0] == 'ok':
+                dd = diff_decoded(parse_decoded(iter(res[1])), rd[1])
+                if dd:
+                    return f'v0 unpack: {dd} [{d0.hex()[:80]}]'
+        b.add('v0-unpack', 'unpack', list(d0), c)
+        ctx.dist('v0-bonds%%5=%d' % ((sum(len(x) for x in m._bonds.values()) // 2) % 5))
+    # large cis/trans counts (> 255 records) on a bond-free pack + random records
+    base = build([{'n': 77, 'z': 6}, {'n': 1234, 'z': 8}], [])
+    raw = bytes(base.pack(compressed=False))
+    for cc in [1, 15, 16, 255, 256, 300, 1000, 4095]:
+        d = bytes([raw[0], raw[1], (raw[2] & 0xf0) | (cc >> 8), cc & 255]) + raw[4:] + bytes(rng.randrange(256) for _ in range(4 * cc))
+        rd = real_decode_raw(list(d))
+
+        def c(res, rd=rd, cc=cc):
+            if res[0] != rd[0]:
+                return f'cis/trans count {cc}: model {res[0]} real {rd[0]}'
+            if res[0] == 'ok':
+                dd = diff_decoded(parse_decoded(iter(res[1])), rd[1])
+                if dd:
+                    return f'cis/trans count {cc}: {dd}'
+        b.add('synthetic-ct', 'unpack', list(d), c)
+    # arbitrary atom-record bytes on bond-free packs (every bit of the 9-byte record decoded by both sides)
+    for k in range(600 if ctx.quick else 6000):
+        n = rng.randint(1, 3)
+        recs = bytearray()
+        for _ in range(n):
+            r = bytearray(rng.randrange(256) for _ in range(9))
+            r[1] &= 0xf0                      # no neighbours
+            if rng.random() < 0.9:
+                r[3] = (r[3] & 0x80) | rng.randint(1, 118)
+            recs += r
+        d = bytes([2, 0, n << 4, 0]) + bytes(recs)
+        rd = real_decode_raw(list(d))
+        ctx.dist('synthetic-atom:' + ('ok' if rd[0] == 'ok' else str(rd[1])))
+
+        def c(res, rd=rd, d=d):
+            if (res[0] == 'ok') != (rd[0] == 'ok'):
+                return f'atom bytes {d.hex()}: model {res[0]} {res[1] if res[0] == "err" else ""} real {rd[:2] if rd[0] == "err" else "ok"}'
+            if res[0] == 'ok':
+                dd = diff_decoded(parse_decoded(iter(res[1])), rd[1])
+                if dd:
+                    return f'atom bytes {d.hex()}: {dd}'
+        b.add('synthetic-atom', 'unpack', list(d), c)
+        if len(b.lines) > 3000:
+            b.run()
+    b.run()
+
+
 def corr_malformed(ctx):
     """truncated / corrupted packs: only the outcome class (ok vs error) is compared"""
     from .. import molgen
@@ -1031,7 +1152,7 @@ def correspond(ctx):
     if not ctx.build_ok:
         ctx.notes.append('Lean build failed: driver streams skipped; running the property oracle directly')
         return
-    for f in (corr_half, corr_molecules, corr_reactions, corr_refpacks, corr_malformed):
+    for f in (corr_half, corr_molecules, corr_reactions, corr_refpacks, corr_synthetic, corr_malformed):
         t = ctx.elapsed()
         f(ctx)
         ctx.dist('wall_s:' + f.__name__, round(ctx.elapsed() - t, 1))
@@ -1084,6 +1205,10 @@ def run_input(inp):
     k = inp['kind']
     if k == 'mol':
         m = mol_from_json(inp['mol'])
+        if inp.get('v0'):
+            d2 = bytes(m.pack(compressed=False))
+            why = v0_differs(m, to_v0(m, d2), d2)
+            return [('C10/v0/decodes-differently', why)] if why else []
         return oracle_mol(m) if in_limits(m) else []
     if k == 'smiles':
         from chython import smiles
@@ -1136,7 +1261,7 @@ def search(ctx):
     if found:
         return
     common = gen_packtables.tables()[0]
-    for gen in (gen_big, gen_limits, gen_real):
+    for gen in (gen_limits, gen_real, gen_big):
         for name, mol in gen(ctx):
             if ctx.elapsed() > budget:
                 break
@@ -1145,7 +1270,9 @@ def search(ctx):
             seen += 1
             res = oracle_mol(mol, common)
             if res:
-                found |= report({'kind': 'mol', 'name': name, 'mol': mol_to_json(mol)}, res)
+                inp = ({'kind': 'smiles', 'smiles': 'C' + '/C=C' * 300 + '/C'} if name.startswith('polyene[') else
+                       {'kind': 'mol', 'name': name, 'mol': mol_to_json(mol)})
+                found |= report(inp, res)
                 if len(ctx.failures) > 20:
                     return
     from chython import ReactionContainer
